@@ -3,6 +3,8 @@
 //! observation line per case.  The same op lines are fed to the Lean driver.
 mod util;
 mod table;
+mod comp;
+mod exec;
 
 fn main() {
     let args: Vec<String> = std::env::args().collect();
@@ -15,6 +17,7 @@ fn main() {
     let rest = &args[2..];
     match args[1].as_str() {
         "dump-table" => table::dump_table(),
+        "exec" => exec::run(rest),
         other => {
             eprintln!("unknown subcommand {other} {rest:?}");
             std::process::exit(2);
